@@ -276,7 +276,9 @@ class Script:
                         op_lookup = TAPROOT_OP_CODE_FUNCTIONS
         if len(stack) == 0:
             return False
-        if stack.pop() == b"":
+        # consensus CastToBool: all-zero strings and negative zero (last byte 0x80) are false
+        top = stack.pop()
+        if all(b == 0 for b in top[:-1]) and top[-1:] in (b"", b"\x00", b"\x80"):
             return False
         return True
 
